@@ -4,6 +4,7 @@ import (
 	"bytes"
 	"fmt"
 	"go/ast"
+	"go/token"
 	"go/types"
 	"sort"
 	"strings"
@@ -593,6 +594,233 @@ func synthFlagSplit(pkgs []*packages.Package, src func(string) []byte) (map[stri
 			nb = append(append(append([]byte{}, nb[:e.a]...), []byte(e.text)...), nb[e.e:]...)
 		}
 		nb = append(nb, []byte(appendix[fname])...)
+		out[fname] = nb
+	}
+	return out, notes
+}
+
+// dropConstParams undoes "add a parameter for a future feature": an unexported function of the reviewed tree that has
+// gained trailing or interleaved parameters, while every call site passes the same closed constant expression for each
+// of them (a literal, true/false/nil, a zero or constant composite literal `T{}`): the parameters are removed from the
+// declaration and the call sites in the overlay and become locals initialised with that expression at the top of the
+// body.  Branches on them are then constant, and infeasible edges are pruned by the path analyses (edgeDead).
+func dropConstParams(pkgs []*packages.Package, src func(string) []byte) (map[string][]byte, []string) {
+	type edit struct {
+		a, e int
+		text string
+	}
+	edits := map[string][]edit{}
+	var notes []string
+	for _, p := range pkgs {
+		if !smPkgs[p.PkgPath] || p.TypesInfo == nil {
+			continue
+		}
+		info := p.TypesInfo
+		for i, f := range p.Syntax {
+			if i >= len(p.CompiledGoFiles) {
+				continue
+			}
+			fname := p.CompiledGoFiles[i]
+			if strings.HasSuffix(fname, ".pb.go") || strings.HasSuffix(fname, ".pb.gw.go") {
+				continue
+			}
+			csrc := src(fname)
+			if csrc == nil {
+				continue
+			}
+			for _, d := range f.Decls {
+				fd, ok := d.(*ast.FuncDecl)
+				if !ok || fd.Body == nil || ast.IsExported(fd.Name.Name) || fd.Type.TypeParams != nil || fd.Type.Params == nil {
+					continue
+				}
+				key := declKey(p.PkgPath, fd)
+				base, ok := baselineParams[key]
+				if !ok || !baselineFuncs[key] {
+					continue
+				}
+				obj, _ := info.Defs[fd.Name].(*types.Func)
+				if obj == nil {
+					continue
+				}
+				sig := obj.Type().(*types.Signature)
+				if sig.Variadic() {
+					continue
+				}
+				nrecv := 0
+				if sig.Recv() != nil {
+					nrecv = 1
+				}
+				if len(base) < nrecv || sig.Params().Len() <= len(base)-nrecv {
+					continue
+				}
+				// align: the reviewed parameter types are a subsequence of the current ones, in order
+				var extra []int // indices of current explicit parameters that are new
+				bi := nrecv
+				for j := 0; j < sig.Params().Len(); j++ {
+					t := sig.Params().At(j).Type()
+					if bi < len(base) && typeKey(t)+ptrMark(t) == base[bi][1] {
+						bi++
+						continue
+					}
+					extra = append(extra, j)
+				}
+				if bi != len(base) || len(extra) == 0 {
+					continue
+				}
+				// flat list of the parameter identifiers and their fields
+				type pinfo struct {
+					name  *ast.Ident
+					field *ast.Field
+				}
+				var plist []pinfo
+				for _, fl := range fd.Type.Params.List {
+					if len(fl.Names) == 0 {
+						plist = nil
+						break
+					}
+					for _, nm := range fl.Names {
+						plist = append(plist, pinfo{nm, fl})
+					}
+				}
+				if len(plist) != sig.Params().Len() {
+					continue
+				}
+				// call sites: same closed constant text for every new parameter
+				type site struct {
+					call  *ast.CallExpr
+					fname string
+				}
+				var sites []site
+				okUse := true
+				for i2, f2 := range p.Syntax {
+					if i2 >= len(p.CompiledGoFiles) {
+						continue
+					}
+					called := map[*ast.Ident]*ast.CallExpr{}
+					ast.Inspect(f2, func(nd ast.Node) bool {
+						if c, ok := nd.(*ast.CallExpr); ok {
+							switch fx := ast.Unparen(c.Fun).(type) {
+							case *ast.Ident:
+								called[fx] = c
+							case *ast.SelectorExpr:
+								called[fx.Sel] = c
+							}
+						}
+						return true
+					})
+					ast.Inspect(f2, func(nd ast.Node) bool {
+						if id, ok := nd.(*ast.Ident); ok && info.Uses[id] == types.Object(obj) {
+							if c := called[id]; c != nil && !c.Ellipsis.IsValid() && len(c.Args) == sig.Params().Len() {
+								sites = append(sites, site{c, p.CompiledGoFiles[i2]})
+							} else {
+								okUse = false
+							}
+						}
+						return true
+					})
+				}
+				if !okUse || len(sites) == 0 {
+					continue
+				}
+				closed := func(e ast.Expr) bool {
+					ok := true
+					ast.Inspect(e, func(nd ast.Node) bool {
+						switch x := nd.(type) {
+						case *ast.CallExpr, *ast.FuncLit:
+							ok = false
+						case *ast.UnaryExpr:
+							if x.Op == token.AND || x.Op == token.ARROW {
+								ok = false
+							}
+						case *ast.Ident:
+							o := info.Uses[x]
+							if o == nil {
+								return true // field keys of composite literals
+							}
+							switch o.(type) {
+							case *types.Const, *types.TypeName, *types.Nil, *types.PkgName:
+							default:
+								ok = false
+							}
+						}
+						return true
+					})
+					return ok
+				}
+				argText := map[int]string{}
+				okArgs := true
+				for _, s := range sites {
+					ssrc := src(s.fname)
+					if ssrc == nil {
+						okArgs = false
+						break
+					}
+					for _, j := range extra {
+						a := s.call.Args[j]
+						if !closed(a) {
+							okArgs = false
+							break
+						}
+						t := string(ssrc[p.Fset.Position(a.Pos()).Offset:p.Fset.Position(a.End()).Offset])
+						if prev, seen := argText[j]; seen && prev != t {
+							okArgs = false
+						}
+						argText[j] = t
+					}
+				}
+				if !okArgs {
+					continue
+				}
+				// declaration: rebuild the parameter list without the new ones, initialise them as locals
+				var keep []string
+				var inits bytes.Buffer
+				isExtra := map[int]bool{}
+				for _, j := range extra {
+					isExtra[j] = true
+				}
+				for j, pi := range plist {
+					tt := string(csrc[p.Fset.Position(pi.field.Type.Pos()).Offset:p.Fset.Position(pi.field.Type.End()).Offset])
+					if isExtra[j] {
+						if pi.name.Name != "_" {
+							fmt.Fprintf(&inits, "\nvar %s %s = %s\n_ = %s\n", pi.name.Name, tt, argText[j], pi.name.Name)
+						}
+						continue
+					}
+					keep = append(keep, pi.name.Name+" "+tt)
+				}
+				edits[fname] = append(edits[fname], edit{p.Fset.Position(fd.Type.Params.Opening).Offset + 1, p.Fset.Position(fd.Type.Params.Closing).Offset, strings.Join(keep, ", ")})
+				lb := p.Fset.Position(fd.Body.Lbrace).Offset + 1
+				edits[fname] = append(edits[fname], edit{lb, lb, inits.String()})
+				for _, s := range sites {
+					var args []string
+					ssrc := src(s.fname)
+					for j, a := range s.call.Args {
+						if !isExtra[j] {
+							args = append(args, string(ssrc[p.Fset.Position(a.Pos()).Offset:p.Fset.Position(a.End()).Offset]))
+						}
+					}
+					edits[s.fname] = append(edits[s.fname], edit{p.Fset.Position(s.call.Lparen).Offset + 1, p.Fset.Position(s.call.Rparen).Offset, strings.Join(args, ", ")})
+				}
+				notes = append(notes, fmt.Sprintf("%s: %d added parameter(s) with one constant argument at all %d call sites turned into locals", key, len(extra), len(sites)))
+			}
+		}
+	}
+	if len(edits) == 0 {
+		return nil, notes
+	}
+	out := map[string][]byte{}
+	for fname, es := range edits {
+		b := src(fname)
+		sort.SliceStable(es, func(i, j int) bool { return es[i].a > es[j].a })
+		for i := 1; i < len(es); i++ {
+			if es[i].e > es[i-1].a {
+				return nil, append(notes, "overlapping parameter edits in "+fname+": pass abandoned")
+			}
+		}
+		nb := append([]byte{}, b...)
+		for _, e := range es {
+			nb = append(append(append([]byte{}, nb[:e.a]...), []byte(e.text)...), nb[e.e:]...)
+		}
 		out[fname] = nb
 	}
 	return out, notes
